@@ -282,6 +282,39 @@ func (s *Store) CARootSetCAS(idx, cidx uint64, rs []*structs.CARoot) (bool, erro
 	return err == nil, err
 }
 
+// CARootsAndConfigSetCAS sets the current CA root state and the CA configuration
+// in a single transaction, using a check-and-set operation for each: the roots
+// table must be at index cidx and the existing configuration must be at
+// config.ModifyIndex. If either comparison fails nothing is written, so a
+// caller never observes new roots together with the old configuration.
+func (s *Store) CARootsAndConfigSetCAS(idx, cidx uint64, rs []*structs.CARoot, config *structs.CAConfiguration) (bool, error) {
+	tx := s.db.WriteTxn(idx)
+	defer tx.Abort()
+
+	if midx := maxIndexTxn(tx, tableConnectCARoots); midx != cidx {
+		return false, nil
+	}
+
+	existing, err := tx.First(tableConnectCAConfig, "id")
+	if err != nil {
+		return false, fmt.Errorf("failed CA config lookup: %s", err)
+	}
+	e, ok := existing.(*structs.CAConfiguration)
+	if (ok && e.ModifyIndex != config.ModifyIndex) || (!ok && config.ModifyIndex != 0) {
+		return false, errors.Errorf("ModifyIndex did not match existing")
+	}
+
+	if err := caRootSetCASTxn(tx, idx, cidx, rs); err != nil {
+		return false, err
+	}
+	if err := s.caSetConfigTxn(idx, tx, config); err != nil {
+		return false, err
+	}
+
+	err = tx.Commit()
+	return err == nil, err
+}
+
 func caRootSetCASTxn(tx WriteTxn, idx, cidx uint64, rs []*structs.CARoot) error {
 	// There must be exactly one active CA root.
 	activeCount := 0
